@@ -183,14 +183,14 @@ fn generate(rng: &mut Rng) -> Generated {
         let e1 = produce(r1, name1, p * 2, &mut aux);
         let e2 = produce(r2, name2, p * 2 + 1, &mut aux);
         forms.extend(aux);
-        let holder = rng.below(5);
+        let holder = rng.below(6);
         let garbage = format!("(begin (t-build {}) (t-syms {}) 'g)", rng.range(1, 60), rng.range(0, 12));
         let what = format!(
             "eq? route1={:?} route2={:?} name-class={} holder={} names-{}",
             r1,
             r2,
             class1,
-            ["global", "vector", "closure", "stack", "dropped"][holder as usize],
+            ["global", "vector", "closure", "stack", "dropped", "captured-stack"][holder as usize],
             if names_equal { "equal" } else { "differ" }
         );
         desc.push(what.clone());
@@ -211,6 +211,18 @@ fn generate(rng: &mut Rng) -> Generated {
                 forms.push(format!("(define h{} (let ((s {})) (lambda () s)))", p, e1));
                 forms.push(garbage);
                 forms.push(format!("(eq? (h{}) {})", p, e2));
+                expects.push(Expect { form: forms.len() - 1, expected: names_equal, what });
+            }
+            5 => {
+                // the first symbol lives only on the stack saved in a continuation: it is the operand
+                // evaluated just before the call/cc operand; re-entering the continuation later
+                // delivers it to the pending cons
+                forms.push(format!("(define kk{} #f)", p));
+                forms.push(format!("(define n{} 0)", p));
+                forms.push(format!("(define cell{p} (cons {e1} (call/cc (lambda (c) (set! kk{p} c) 'first))))", p = p, e1 = e1));
+                forms.push(garbage);
+                forms.push(format!("(if (< n{p} 1) (begin (set! n{p} (+ n{p} 1)) (kk{p} 'second)) 'no)", p = p));
+                forms.push(format!("(eq? (car cell{}) {})", p, e2));
                 expects.push(Expect { form: forms.len() - 1, expected: names_equal, what });
             }
             3 => {
